@@ -53,6 +53,9 @@ claimed = {
  "C15": dict(cat="exploration", ref="5/C15",
    text="Limits drawn small; single frames, all fragment partition classes and permessage-deflate bombs straddling the limit, control frames around 125 bytes, trickled giant lengths; besides delivery and 1009 answers the tracking allocator measures the bytes actually buffered, which catches limits enforced only after inflating.",
    tech="deterministic simulation of a hostile peer with allocator-side measurement of buffered bytes"),
+ "C20": dict(cat="exploration", ref="5/C20",
+   text="Model-based operation sequences on the three real allocators with a simulated sync.Pool whose Get returns any earlier Put or a new object by PRNG (five policies) and 1-3 simulated goroutines interleaved by the seeded scheduler; after every operation all live buffers are compared with the reference model and checked pairwise for memory overlap. Candidly mostly operation-sequence search; simulation adds pool policy and interleaving.",
+   tech="deterministic simulation: seeded scheduler + simulated sync.Pool policies, model-based operation sequences with aliasing oracle"),
  "C17": dict(cat="exploration", ref="5/C17",
    text="Exact backlog accounting from the simulated kernel's side (accepted buffer bytes minus bytes the kernel took) compared after every call with nbio's decision (accept / ErrOverflow) and with its internal counter; fill/drain cycles and sizes around the bound are generated.",
    tech="deterministic simulation: kernel-side ground-truth accounting vs implementation decisions under seeded acceptance patterns"),
